@@ -208,7 +208,7 @@ func gen(r *sim.Rng, tier string) *sim.Case {
 		p["efail"] = 1 + r.N(3)
 		p["api"] = r.N(5)
 	case 4, 5:
-		p["tkind"] = r.N(9)
+		p["tkind"] = r.N(11)
 		p["tpos"] = r.N(1 << 16)
 		p["tbit"] = r.N(8)
 	case 6:
@@ -588,6 +588,20 @@ func (w *world) gcmTamper() *sim.Violation {
 		if !differs {
 			w.stats["medium_same_bytes_other_text"]++
 		}
+	case kind == 9 || kind == 10: // a single bit flipped in one character of the text / an arbitrary byte
+		text = append([]byte{}, ct...)
+		i := p["tpos"] % len(text)
+		if kind == 9 {
+			text[i] ^= 1 << p["tbit"]
+		} else {
+			text[i] = byte(p["tpos"] >> 8)
+		}
+		dec, derr := hex.DecodeString(string(text))
+		differs = derr != nil || !bytes.Equal(dec, raw)
+		what = fmt.Sprintf("text character %d changed to %#02x", i, text[i])
+		if !differs {
+			w.stats["medium_same_bytes_other_text"]++
+		}
 	case kind == 7: // wrong secret
 		secret = append(append([]byte{}, w.secret...), byte(p["tbit"]))
 		if len(w.secret) > 0 && p["tpos"]%2 == 0 {
@@ -595,7 +609,7 @@ func (w *world) gcmTamper() *sim.Violation {
 			secret[p["tpos"]%len(secret)] ^= 1 << p["tbit"]
 		}
 		what = "different secret"
-	default: // wrong additional data
+	default: // (kind 8) wrong additional data
 		aad = append(append([]byte{}, w.aad...), byte(p["tbit"]))
 		if len(w.aad) > 0 && p["tpos"]%2 == 0 {
 			aad = append([]byte{}, w.aad...)
